@@ -2,6 +2,7 @@
 from ..rt import check
 
 STREAMS = ["lifecycle"]
+REGENERATE_SRC = True
 RULE = ("histories over 2..4 ServiceRunner instances: accept, a concurrent accept from another thread, then shutdown() "
         "from an outside thread or from a thread payload / SIGINT / a failing payload, then accept on the next runner; "
         "payload populations at that moment: none, sleeping coroutines, blocked threads; the moment is swept across the "
